@@ -82,6 +82,9 @@ type ixWorld struct {
 	nGroups                             int
 	sharedGroupOf                       [2]int
 	signer2                             *hw.Signer
+	// content permanodes: camliContent claims with values the corpus never saw, delivered to the
+	// quiet index and then read by several clients at once (index_content.go)
+	content []contentPn
 }
 
 var (
@@ -128,6 +131,7 @@ func getIxWorld(np, nc, nv int) *ixWorld {
 	}
 	buildDepItems(w)
 	buildDoomed(w)
+	buildContent(w)
 	ixWorlds[key] = w
 	return w
 }
@@ -535,6 +539,21 @@ func runIndexHistory(root string, job jobSpec) *histResult {
 			report("lost/index/GetFileInfo", fmt.Sprintf("after quiescence GetFileInfo(%s) says not found although the blob and everything its indexing needs were delivered and acknowledged", a.key[6:]), map[string]any{"blob": a.key})
 		case (strings.HasPrefix(a.key, "ixdel/") || strings.HasPrefix(a.key, "cdel/")) && !a.op.Present:
 			report("lost/index/"+a.op.Kind[6:], fmt.Sprintf("after quiescence %s(victim %s) = false although the victim and its delete claim were both delivered", a.op.Kind[6:], a.key), map[string]any{"register": a.key})
+		}
+	}
+
+	// ---- read-only phase: content permanodes on the quiet index, several readers at once
+	if job.Content {
+		finished := ev.WithTimeout(150*time.Second, func() {
+			runIndexContent(x, sh, w, job, report, res)
+		})
+		if !finished {
+			buf := make([]byte, 1<<20)
+			n := runtimeStack(buf)
+			fmt.Fprintf(os.Stderr, "C14: index history %s (read-only phase) did not finish within the watchdog; goroutine dump follows\n%s\n", job.ID, buf[:n])
+			res.Inconclusive = append(res.Inconclusive, fmt.Sprintf("index history %s: the read-only phase did not finish within the watchdog (possible deadlock): %s", job.ID, ev.PerkeepFrames(string(buf[:n]))))
+			res.Events = append(res.Events, "hung")
+			return res
 		}
 	}
 
